@@ -161,18 +161,39 @@ func sidecarConfig(ns string, ingress []ingressIn) config.Config {
 	}
 }
 
-func interception(none bool) model.TrafficInterceptionMode {
+func interception(none, tproxy bool) model.TrafficInterceptionMode {
 	if none {
 		return model.InterceptionNone
 	}
+	if tproxy {
+		return model.InterceptionTproxy
+	}
 	return model.InterceptionRedirect
+}
+
+// parseSvcs: <port>:<target>:<PROTOCOL>,... (op ilr).
+func parseSvcs(tok string) []svcPort {
+	out := []svcPort{}
+	for _, e := range wire.DecList(tok) {
+		p := strings.Split(e, ":")
+		if len(p) != 3 || p[2] == "none" {
+			continue
+		}
+		a, _ := strconv.Atoi(p[0])
+		b, _ := strconv.Atoi(p[1])
+		out = append(out, svcPort{a, b, protocol.Parse(p[2])})
+	}
+	return out
 }
 
 // inboundOpts: variations of the fixture.
 type inboundOpts struct {
 	hbone, merge  bool
-	interceptNone bool     // proxy with interception mode NONE
-	protos        []string // protocols of the services on 80, 8080, 9090, 81->8081 ("none": no such service); nil = default fixture
+	interceptNone bool      // proxy with interception mode NONE
+	protos        []string  // protocols of the services on 80, 8080, 9090, 81->8081 ("none": no such service); nil = default fixture
+	tproxy        bool      // interception mode TPROXY
+	unprivileged  bool      // UnprivilegedPod: cannot bind to ports below 1024
+	svcs          []svcPort // op ilr: the services (non-nil), the proxy's metadata names the static listener ports
 }
 
 func (s *sut) inboundListener(ns string, labels [][2]string, ingress []ingressIn, o inboundOpts) string {
@@ -201,10 +222,13 @@ func (s *sut) inboundListener(ns string, labels [][2]string, ingress []ingressIn
 			}
 		}
 	}
+	if o.svcs != nil {
+		fixture = o.svcs
+	}
 	for k, sp := range fixture {
 		svc := &model.Service{
 			CreationTime:   time.Unix(int64(1000+k), 0),
-			Hostname:       host.Name(fmt.Sprintf("svc%d.%s.svc.cluster.local", sp.port, ns)),
+			Hostname:       host.Name(fmt.Sprintf("svc%d%s.%s.svc.cluster.local", sp.port, map[bool]string{true: fmt.Sprintf("-%d", k)}[o.svcs != nil], ns)),
 			DefaultAddress: "0.0.0.0",
 			Ports:          model.PortList{{Name: "default", Port: sp.port, Protocol: sp.proto}},
 			Resolution:     model.ClientSideLB,
@@ -232,7 +256,17 @@ func (s *sut) inboundListener(ns string, labels [][2]string, ingress []ingressIn
 	}
 	proxy := cg.SetupProxy(&model.Proxy{
 		Type: model.SidecarProxy, ConfigNamespace: ns, IPAddresses: []string{ip}, Labels: lm,
-		Metadata: &model.NodeMetadata{Namespace: ns, Labels: lm, EnableHBONE: model.StringBool(hbone), InterceptionMode: interception(o.interceptNone)},
+		Metadata: func() *model.NodeMetadata {
+			md := &model.NodeMetadata{Namespace: ns, Labels: lm, EnableHBONE: model.StringBool(hbone), InterceptionMode: interception(o.interceptNone, o.tproxy)}
+			if o.unprivileged {
+				md.UnprivilegedPod = "true"
+			}
+			if o.svcs != nil {
+				// as the injected sidecar reports them: the static listeners conflictWithReservedListener protects
+				md.EnvoyStatusPort, md.EnvoyPrometheusPort = 15021, 15090
+			}
+			return md
+		}(),
 	})
 	var vi, terminate, inner *listener.Listener
 	var custom []*listener.Listener
@@ -459,6 +493,10 @@ func (s *sut) inboundOracle(f []string, res string, fail func(clause, class, det
 			}
 			targets[i.port] = true
 		}
+	} else if f[0] == "ilr" {
+		for _, sp := range parseSvcs(f[3]) {
+			targets[uint32(sp.target)] = true
+		}
 	} else if f[0] == "ilp" {
 		for k, name := range strings.Split(f[3], ":") {
 			if name != "none" && k < 4 {
@@ -470,8 +508,16 @@ func (s *sut) inboundOracle(f []string, res string, fail func(clause, class, det
 			targets[uint32(sp.target)] = true
 		}
 	}
-	if f[0] == "ils" && len(f) == 6 && f[5] == "1" {
+	if f[0] == "ils" && len(f) >= 6 && f[5] == "1" {
 		// interception NONE: only the ingress ports have a listener; the other ports are not proxied at all
+		// (an unprivileged proxy cannot listen on ports below 1024 either: nothing to judge there)
+		if len(f) == 7 && f[6] == "1" {
+			for p := range targets {
+				if p < 1024 {
+					delete(targets, p)
+				}
+			}
+		}
 		keep := inboundDestsOnly(targets)
 		defer func() { inboundDests = inboundDestsAll }()
 		inboundDests = keep
@@ -545,6 +591,10 @@ func (s *sut) inboundOracle(f []string, res string, fail func(clause, class, det
 		if targets[d] {
 			kind = "target-port"
 		}
+		stat("judged.inbound." + f[0] + "." + want + "." + kind)
+		if len(ownListener[fmt.Sprint(d)]) > 0 {
+			stat("judged.inbound.custom-listener." + want)
+		}
 		if userTLS[d] && want == "DISABLE" {
 			// Sidecar ingress listener with its own TLS settings under DISABLE: the user's TLS is terminated
 			// (exactly one tls chain, no client certificate required, nothing else)
@@ -571,6 +621,9 @@ func (s *sut) inboundOracle(f []string, res string, fail func(clause, class, det
 				bad = true
 			}
 			sel = append(sel, selChain{tls: c.tp == "1", alpn: alpn, sock: c.sock, http: c.http == "1", label: c.tp + "." + c.alpn + "." + c.sock})
+		}
+		if !bad {
+			stat("judged.inbound.clients." + want + "." + kind) // all client kinds of table.go, per destination port
 		}
 		if j := judgeClients(sel, want); !bad && j != "" {
 			g := strings.SplitN(j, " ", 2)
